@@ -156,6 +156,14 @@ theorem toXml_sensitive_is_content (T : Table) (h : offendingToXml T = []) (m : 
 
 /-! ## Today's source (generated table) -/
 
+/-- The code that performs the split uses exactly the modes the theorems speak about: `QXmppClient::sendSensitive`
+puts `toXml(ScePublic)` on the wire (so the wire carries `publicPart`), the OMEMO envelope content is
+`serializeExtensions(SceSensitive)` (`sensitivePart`), and the receive path is `parse(…, ScePublic)` followed by
+`parseExtensions(content, SceSensitive)` (`recover`).  Sending with `SceAll` would make this `decide` fail. -/
+theorem split_call_sites :
+    sendPathMode = .pub ∧ envelopeContentMode = .sens ∧ receiveOuterMode = .pub ∧ receiveContentMode = .sens := by
+  decide
+
 /-- Write side of today's table is well-formed: hence `public_has_no_sensitive`, `parts_partition`,
 `each_in_exactly_one_part` hold of the code as it is.  Moving any payload writer out of the sensitive block, or
 adding an unclassified writer to the public block or the tail, makes this `decide` fail. -/
